@@ -1068,10 +1068,7 @@ func cellValue(a *ssa.Alloc) (ssa.Value, bool) {
 	if !readOnly(a, 0) || st == nil {
 		return nil, false
 	}
-	// the single store comes first: in the entry block, before any other use of the cell
-	if st.Block() != a.Parent().Blocks[0] {
-		return nil, false
-	}
+	// the single store comes first: before every other use of the cell
 	for _, ref := range *a.Referrers() {
 		if in, ok := ref.(ssa.Instruction); ok && in != ssa.Instruction(st) {
 			if _, isDbg := in.(*ssa.DebugRef); isDbg {
